@@ -106,24 +106,48 @@ Inductive field :=
 | FReply | FTag | FDestPort | FDestCpu | FSrcPort | FSrcCpu | FDestX | FDestY | FSrcX | FSrcY
 | FCmd | FSeq | FArg1 | FArg2 | FArg3 | FData.
 
-(* q and q' agree on every field but f; for an argument field, the argument is present in both *)
-Definition same_except (f : field) (q q' : scp) : Prop :=
-  let p := sdp_part q in let p' := sdp_part q' in
+(* p and p' agree on every SDP field but f *)
+Definition sdp_same_except (f : field) (p p' : sdp) : Prop :=
   (f = FReply \/ reply_expected p = reply_expected p') /\ (f = FTag \/ tag p = tag p')
   /\ (f = FDestPort \/ dest_port p = dest_port p') /\ (f = FDestCpu \/ dest_cpu p = dest_cpu p')
   /\ (f = FSrcPort \/ src_port p = src_port p') /\ (f = FSrcCpu \/ src_cpu p = src_cpu p')
   /\ (f = FDestX \/ dest_x p = dest_x p') /\ (f = FDestY \/ dest_y p = dest_y p')
   /\ (f = FSrcX \/ src_x p = src_x p') /\ (f = FSrcY \/ src_y p = src_y p')
+  /\ (f = FData \/ data p = data p').
+
+(* q and q' agree on every field but f; for an argument field, the argument is present in both *)
+Definition same_except (f : field) (q q' : scp) : Prop :=
+  sdp_same_except f (sdp_part q) (sdp_part q')
   /\ (f = FCmd \/ cmd_rc q = cmd_rc q') /\ (f = FSeq \/ seq q = seq q')
   /\ ((f = FArg1 /\ arg1 q <> None /\ arg1 q' <> None) \/ arg1 q = arg1 q')
   /\ ((f = FArg2 /\ arg2 q <> None /\ arg2 q' <> None) \/ arg2 q = arg2 q')
-  /\ ((f = FArg3 /\ arg3 q <> None /\ arg3 q' <> None) \/ arg3 q = arg3 q')
-  /\ (f = FData \/ data p = data p').
+  /\ ((f = FArg3 /\ arg3 q <> None /\ arg3 q' <> None) \/ arg3 q = arg3 q').
 
 (* [others f q i b]: what remains of byte b at position i of q's encoding when the bits owned by field f are
    removed.  Header fields own fixed bytes (ports the top three bits, cores the low five); cmd_rc owns bytes
    10-11, seq 12-13; the j-th present argument owns the four bytes from 14+4j; the payload owns everything
-   from 14 + 4 * (number of present arguments). *)
+   from 14 + 4 * (number of present arguments) -- from 10 in an SDP packet. *)
+Definition header_others (f : field) (i : nat) (b : Z) : Z :=
+  match f with
+  | FReply => if Nat.eqb i 2 then 0 else b
+  | FTag => if Nat.eqb i 3 then 0 else b
+  | FDestPort => if Nat.eqb i 4 then b mod 32 else b
+  | FDestCpu => if Nat.eqb i 4 then b / 32 else b
+  | FSrcPort => if Nat.eqb i 5 then b mod 32 else b
+  | FSrcCpu => if Nat.eqb i 5 then b / 32 else b
+  | FDestY => if Nat.eqb i 6 then 0 else b
+  | FDestX => if Nat.eqb i 7 then 0 else b
+  | FSrcY => if Nat.eqb i 8 then 0 else b
+  | FSrcX => if Nat.eqb i 9 then 0 else b
+  | _ => b
+  end.
+
+Definition sdp_others (f : field) (i : nat) (b : Z) : Z :=
+  match f with
+  | FData => if Nat.leb 10 i then 0 else b
+  | _ => header_others f i b
+  end.
+
 Definition presentn (a : option Z) : nat := match a with None => 0%nat | Some _ => 1%nat end.
 
 Definition arg_start (q : scp) (f : field) : nat :=
@@ -136,21 +160,12 @@ Definition arg_start (q : scp) (f : field) : nat :=
 
 Definition others (f : field) (q : scp) (i : nat) (b : Z) : Z :=
   match f with
-  | FReply => if Nat.eqb i 2 then 0 else b
-  | FTag => if Nat.eqb i 3 then 0 else b
-  | FDestPort => if Nat.eqb i 4 then b mod 32 else b
-  | FDestCpu => if Nat.eqb i 4 then b / 32 else b
-  | FSrcPort => if Nat.eqb i 5 then b mod 32 else b
-  | FSrcCpu => if Nat.eqb i 5 then b / 32 else b
-  | FDestY => if Nat.eqb i 6 then 0 else b
-  | FDestX => if Nat.eqb i 7 then 0 else b
-  | FSrcY => if Nat.eqb i 8 then 0 else b
-  | FSrcX => if Nat.eqb i 9 then 0 else b
   | FCmd => if (Nat.leb 10 i && Nat.ltb i 12)%bool then 0 else b
   | FSeq => if (Nat.leb 12 i && Nat.ltb i 14)%bool then 0 else b
   | FArg1 | FArg2 | FArg3 =>
       if (Nat.leb (arg_start q f) i && Nat.ltb i (arg_start q f + 4))%bool then 0 else b
   | FData => if Nat.leb (arg_start q f) i then 0 else b
+  | _ => header_others f i b
   end.
 
 (* the two encodings differ only in the bits owned by f (and, unless f is the payload, have equal length) *)
@@ -158,3 +173,8 @@ Definition differ_only_in (f : field) (q : scp) (bs bs' : list Z) : Prop :=
   (f <> FData -> length bs = length bs')
   /\ forall i, (i < length bs)%nat -> (i < length bs')%nat ->
                others f q i (nth i bs 0) = others f q i (nth i bs' 0).
+
+Definition sdp_differ_only_in (f : field) (bs bs' : list Z) : Prop :=
+  (f <> FData -> length bs = length bs')
+  /\ forall i, (i < length bs)%nat -> (i < length bs')%nat ->
+               sdp_others f i (nth i bs 0) = sdp_others f i (nth i bs' 0).
